@@ -561,7 +561,35 @@ impl<C: Cfg> World<C> {
         if damage {
             // only validity is promised; [0,a) must be untouched
             let prefix: Vec<u32> = self.model[v][..a].to_vec();
+            let original: Vec<u32> = self.model[v].clone();
             self.resync_after_damage(v);
+            if !self.dead() && op.lie == 0 {
+                // by value: what was handed out (moved out) must not be visible any more, nothing may
+                // appear more often than it existed (old elements + replacement values)
+                let mut budget: Vec<u32> = original.clone();
+                budget.extend(repl_payloads.iter().copied());
+                let mut used: Vec<u32> = want_seen.iter().filter_map(|x| x.1).collect();
+                used.extend(self.model[v].iter().copied());
+                let mut dup = None;
+                for x in used {
+                    match budget.iter().position(|b| *b == x) {
+                        Some(p) => {
+                            budget.swap_remove(p);
+                        }
+                        None => {
+                            dup = Some(x);
+                            break;
+                        }
+                    }
+                }
+                if let Some(x) = dup {
+                    self.fail(
+                        MON_VALID,
+                        format!("{}:moved-out-still-visible", name),
+                        format!("after leaking the {} iterator the value {} is visible in the vector although it was handed out / exists only once (vector now {:?}, was {:?}, yielded {:?})", name, x, self.model[v], original, want_seen),
+                    );
+                }
+            }
             if !self.dead() && !cap_bad && op.lie == 0 {
                 if self.model[v].len() < a || self.model[v][..a] != prefix[..] {
                     self.fail(MON_VALID, format!("{}:forget-prefix", name), format!("after forgetting the {} iterator the elements before index {} changed: {:?} -> {:?}", name, a, prefix, self.model[v]));
